@@ -89,7 +89,9 @@ func (r *Run) libCall(st *State, fr *Frame, name string, recv Val, args []Val, s
 	case "(*sync.Cond).Wait":
 		return r.condWait(st, fr, e.asTerm(recv, SRef), in, dst)
 	case "(*sync.Cond).Broadcast", "(*sync.Cond).Signal":
-		r.condBroadcast(st, fr, e.asTerm(recv, SRef), in)
+		// Signal wakes at most ONE waiter: it does not discharge the duty to notify everybody who may be waiting for the
+		// changed state (the monitors of this package have several waiters with different predicates)
+		r.condNotify(st, fr, e.asTerm(recv, SRef), in, name == "(*sync.Cond).Broadcast")
 		return ret()
 	case "(*sync.Once).Do":
 		return r.onceDo(st, fr, e.asTerm(recv, SRef), args[0], in, dst)
@@ -381,6 +383,10 @@ func (r *Run) condWait(st *State, fr *Frame, cond T, in ssa.Instruction, dst ssa
 }
 
 func (r *Run) condBroadcast(st *State, fr *Frame, cond T, in ssa.Instruction) {
+	r.condNotify(st, fr, cond, in, true)
+}
+
+func (r *Run) condNotify(st *State, fr *Frame, cond T, in ssa.Instruction, all bool) {
 	e := r.e
 	e.safety(st, fr, in, "nilcond", Not(Eq(cond, NilOf(SRef))), "Broadcast/Signal on a non-nil *sync.Cond at "+e.posOf(in))
 	lr, known := r.condLockRef(st, cond)
@@ -392,6 +398,9 @@ func (r *Run) condBroadcast(st *State, fr *Frame, cond T, in ssa.Instruction) {
 			g = True
 		}
 		e.emitWith(st, name, "", nil, g, "Broadcast issued while holding the cond's lock (no lost wake-up) at "+e.posOf(in), e.posOf(in), []string{"C05"}, nil)
+		if !all {
+			return
+		}
 		k := "bcast:" + lr.Class + ":" + lr.Base.S
 		st.Counters[k] = App(SInt, "+", r.counter(st, k), IntLit(1))
 		delete(st.Facts, "dirty:"+lr.Class+":"+lr.Base.S)
